@@ -635,6 +635,13 @@ class Exec:
             if m is not None:
                 yield st, m
                 return
+            if type(p).__name__ == "SymCandleP":
+                if name == "indicators":
+                    yield st, p.ind_ref
+                    return
+                if name == "sub_indicators":
+                    yield st, p.sub_ref
+                    return
             raise Unsupported(f"attribute {type(p).__name__}.{name}")
         if isinstance(obj, CandleAt):
             yield from self.candle_attr(obj, name, st, node)
@@ -674,6 +681,14 @@ class Exec:
         m = bm.method_of(self, obj, obj, name)
         if m is not None:
             yield st, m
+            return
+        if isinstance(obj, SV) and name == "get":
+            from .symdict import sv_get
+
+            def _get(ex, st_, args, kwargs, node_, obj=obj):
+                yield st_, sv_get(ex, st_, obj, args, node_)
+
+            yield st, Builtin("reading.get", _get)
             return
         if hasattr(obj, "getattr"):
             yield from obj.getattr(name, self, st, node)
@@ -803,6 +818,13 @@ class Exec:
                             self.need(st, False, "IndexError", node)
                         return
                 raise Unsupported("string index")
+            if type(obj).__name__ == "VarsView":
+                o = st.heap[obj.ref.oid]
+                if idx in o.fields:
+                    yield st, o.fields[idx]
+                else:
+                    self.need(st, False, "KeyError", node)
+                return
             if hasattr(obj, "getitem"):
                 yield from obj.getitem(idx, self, st, node)
                 return
@@ -916,6 +938,10 @@ class Exec:
             self.series_write(st, obj, self.hashkey(idx), value, node)
             yield st
             return
+        if type(obj).__name__ == "VarsView":
+            st.heap[obj.ref.oid].fields[idx] = value
+            yield st
+            return
         if hasattr(obj, "setitem"):
             yield from obj.setitem(idx, value, self, st, node)
             return
@@ -1015,7 +1041,7 @@ class Exec:
             except PathDead:
                 return
         contract = self.ctx.contracts.get(q)
-        if contract is not None and q != self.ctx.func and q not in self.ctx.force_inline:
+        if contract is not None and contract.use_at_calls and q != self.ctx.func and q not in self.ctx.force_inline:
             self.ctx.edges.add((self.ctx.func, q, "contract"))
             from .contracts import apply_contract
 
